@@ -15,13 +15,13 @@ P == Pooled(B, C.classes, C.S)
 A == PInv(P, C.S)
 Full == AllClassesHaveTwo(B, C.classes)
 \* (M) lemmas
-PInvLemma == Full => IsPInv(A, P, C.S) /\ PSD(P, C.S)
+PInvLemma == IsPInv(A, P, C.S) /\ PSD(P, C.S)
 KMatchesP == /\ TemplateK(B, C.classes, C.S, C.variant) = T
-             /\ (Full => PooledK(B, C.classes, C.S) = P)
+             /\ PooledK(B, C.classes, C.S) = P
 \* a trace equal to a template is best matched by that template (static attack, single matching trace, full-rank A)
 Emit == PrintT(<<"EMIT", ToJson([case |-> case, res |->
    [tpl |-> T, full |-> Full,
-    pooled |-> IF Full THEN P ELSE <<>>, pinv |-> IF Full THEN A ELSE <<>>,
-    static |-> IF Full /\ Len(M) > 0 THEN [k \in 1..Len(C.classes) |-> ScoreStatic(M, T, A, C.S, k)] ELSE <<>>,
-    dpa |-> IF Full /\ Len(M) > 0 THEN [g \in 1..C.W |-> ScoreDpa(M, T, A, C.S, C.classes, g)] ELSE <<>>]])>>)
+    pooled |-> P, pinv |-> A,
+    static |-> IF Len(M) > 0 THEN [k \in 1..Len(C.classes) |-> ScoreStatic(M, T, A, C.S, k)] ELSE <<>>,
+    dpa |-> IF Len(M) > 0 THEN [g \in 1..C.W |-> ScoreDpa(M, T, A, C.S, C.classes, g)] ELSE <<>>]])>>)
 =============================================================================
